@@ -259,12 +259,22 @@ impl Version {
             })
             .collect::<crate::Result<Vec<_>>>()?;
 
+        let blob_files =
+            BlobFileList::new(blob_files.iter().cloned().map(|bf| (bf.id(), bf)).collect());
+
+        // NOTE: Blob files that were dropped together with their tables (drop_range, FIFO)
+        // leave their fragmentation stats behind; because blob file IDs are handed out again
+        // starting after the highest *existing* ID, such a leftover entry would be attributed
+        // to a new, unrelated blob file and could make it look dead while it is referenced
+        let mut gc_stats = recovery.gc_stats;
+        gc_stats.prune(&blob_files);
+
         Ok(Self::from_levels(
             recovery.curr_version_id,
             recovery.tree_type,
             version_levels,
-            BlobFileList::new(blob_files.iter().cloned().map(|bf| (bf.id(), bf)).collect()),
-            recovery.gc_stats,
+            blob_files,
+            gc_stats,
         ))
     }
 
